@@ -3,9 +3,10 @@ package model
 import "encoding/binary"
 
 // Verdict of the reference validator. It is deliberately three-valued:
-// Unspec marks inputs whose acceptance the properties do not settle (empty
-// container with a mismatching element type code, bool byte other than 0/1,
-// nesting deeper than 48 levels); Unspec never produces a verdict in a check.
+// Unspec marks inputs whose acceptance the properties do not settle (bool byte
+// other than 0/1, nesting deeper than 48 levels, an empty container with an
+// undefined element type code inside a skipped field); Unspec never produces a
+// verdict in a check.
 type Verdict int
 
 const (
@@ -138,11 +139,7 @@ func (x *vctx) vtype(t *T, b []byte, depth int) (int, bool) {
 			return 0, false
 		}
 		if et != t.Elem.Wire() {
-			if n == 0 {
-				x.unspec = true
-				return 5, true
-			}
-			return 0, false
+			return 0, false // "mismatching element type codes are reported as errors": also for an empty container
 		}
 		i := 5
 		for j := 0; j < n; j++ {
@@ -163,10 +160,6 @@ func (x *vctx) vtype(t *T, b []byte, depth int) (int, bool) {
 			return 0, false
 		}
 		if kt != t.Key.Wire() || vt != t.Elem.Wire() {
-			if n == 0 {
-				x.unspec = true
-				return 6, true
-			}
 			return 0, false
 		}
 		i := 6
